@@ -399,6 +399,9 @@ func runC19(tier string, r *rng) {
 		}
 		c19Case(r, storeTo, tp, evs)
 	}
+	for _, st := range []int{20, 0} {
+		c19CancelledOwner(st)
+	}
 	for _, n := range []int{2, 3, 5} {
 		c19Flight(n, "ok:40", "")
 		c19Flight(n, "fail", "")
@@ -424,4 +427,39 @@ func runC19(tier string, r *rng) {
 	for _, ans := range []string{"fail", "ok:20", "ok:15", "ok:40"} {
 		c19HeadRaceStale(20, ans)
 	}
+}
+
+// c19CancelledOwner: a Head() call whose context is already done happens to own the head request; the calls after it
+// are healthy: the next one issues its own single request and adopts the answer, without waiting for anything.
+func c19CancelledOwner(storeTo int) {
+	ctx := context.Background()
+	run := newC19(storeTo, 2*time.Hour, 600*time.Second)
+	run.a1, run.a2 = "fail", "ok:40"
+	if storeTo == 0 {
+		run.a1 = "ok:59"
+	}
+	dead, cancel := context.WithCancel(ctx)
+	cancel()
+	_, err0 := run.s.Head(dead)
+	run.g.take()
+	hctx, hcancel := context.WithTimeout(ctx, 5*time.Second)
+	t0 := time.Now()
+	h, err := run.s.Head(hctx)
+	took := time.Since(t0)
+	hcancel()
+	res := "err"
+	if err == nil && h != nil {
+		res = utoa(h.H)
+	}
+	nreq := 0
+	for _, l := range run.g.take() {
+		if l == "Head" || strings.HasPrefix(l, "HeadT:") {
+			nreq++
+		}
+	}
+	slow := 0
+	if took > time.Second {
+		slow = 1
+	}
+	emit("C19 kind=cancelledowner store=%d => first=%s head=%s reqs=%d slow=%d", storeTo, errs(err0), res, nreq, slow)
 }
